@@ -133,17 +133,27 @@ def build_dir(ctx, case):
         mem.writetext(d + "/inner.gb", genbank_text(rec))
     for n in case["junk"]:
         mem.writetext(n, "not a genbank file\n")
+    if case.get("extensions"):
+        return FilesystemRegistry(mem, base, extensions=tuple(case["extensions"])), base
     return FilesystemRegistry(mem, base), base
 
 
 def check_dir(ctx, case):
     reg, base = build_dir(ctx, case)
-    expect = [f["stem"] for f in case["files"] if f["ext"] in ("gb", "gbk")]
+    exts = case.get("extensions") or ["gb", "gbk"]
+    if all(e in ("gb", "gbk", "genbank", "GB") for e in exts):
+        expect = [f["stem"] for f in case["files"] if f["ext"] in exts]
+    else:
+        # an extension spelt with its dot: which files that selects is not the property's business, but iteration,
+        # len(), [] and `in` must still tell one story (every stem is tried as a possibly-absent key below)
+        expect = None
+        ctx.note("dir-dotted-extension")
     # a sub-directory named like a plasmid file holds no plasmid: its stem is an absent key unless a file has it
-    absent = [d.rsplit(".", 1)[0] for d in case["dirs"] if "." in d and d.rsplit(".", 1)[0] not in expect]
+    absent = [d.rsplit(".", 1)[0] for d in case["dirs"] if "." in d and d.rsplit(".", 1)[0] not in (expect or ())]
+    absent += [f["stem"] for f in case["files"] if f["stem"] not in (expect or ())]
     check_mapping(ctx, "directory registry", reg, case, expect_keys=expect, absent_keys=absent)
     ctx.note("dir-files", len(case["files"]))
-    ctx.case(case, nontrivial=len(expect) >= 2)
+    ctx.case(case, nontrivial=len(list(reg)) >= 2 if expect is None else len(expect) >= 2)
 
 
 class ListRegistry(object):
@@ -310,7 +320,9 @@ def gen_dir(rng, nsrc):
     if gbfiles and rng.random() < 0.3:
         f = rng.choice(gbfiles)
         dirs.append(f["stem"] + "." + ("gbk" if f["ext"] == "gb" else "gb"))      # pX.gb/ next to pX.gbk
-    return {"files": files, "dirs": dirs,
+    exts = rng.choice([None, None, None, ["gb"], ["gbk", "gb"], ["genbank"], ["gb", "gbk", "genbank"], [".gb"],
+                       ["gb", ".gbk"], [".gb", ".gbk"]])
+    return {"files": files, "dirs": dirs, "extensions": exts,
             "junk": rng.sample(["README", "notes.txt", "seq.fa", ".hidden"], rng.randint(0, 2))}
 
 
